@@ -254,6 +254,12 @@ class ExprMixin:
         return self.binop(e.op, self.eval(e.left, fr), self.eval(e.right, fr), e.lineno)
 
     def binop(self, op, a, b, lineno=0):
+        if isinstance(op, ast.Div) and isinstance(a, VOpaque):
+            from .ex_call import EXTERNALS
+            h = EXTERNALS.get(f"{a.ty.name}.__truediv__")  # e.g. pathlib: path / "name"
+            if h is not None:
+                self.external_used.add(f"{a.ty.name}.__truediv__")
+                return h(self, [a, b], {}, lineno)
         ca, cb = concrete_of(a), concrete_of(b)
         if isinstance(a, VOpt):
             self.safety(z3.Not(a.isnone), "none operand", lineno)
